@@ -1,5 +1,5 @@
 """pyvc.engine -- the verifier: generates and discharges the obligations of one function."""
-import ast, time, traceback
+import ast, time, traceback, os
 import z3
 from .ty import *
 from .state import *
@@ -185,6 +185,8 @@ class Engine(NumericMixin, EvalMixin, ExecMixin, CallMixin, BuiltinMixin):
             if n not in spec.params:
                 raise SpecError('parameter %s of %s has no declared type' % (n, fi.qual))
             st.env[n] = fresh_value(st, spec.params[n], n)
+        for gname, gt in spec.ghost_params.items():
+            st.env[gname] = fresh_value(st, gt, gname)
         st.env['np_errstate'] = SV(STR, z3.String('np_errstate0'))      # numpy's process-global error configuration (ghost)
         return st
 
@@ -496,7 +498,13 @@ class Engine(NumericMixin, EvalMixin, ExecMixin, CallMixin, BuiltinMixin):
         r = s.check()
         if r == z3.unsat:
             return 'unsat', None
-        # 2nd attempt: default configuration (MBQI on): can also produce counter-models
+        # 2nd attempt: manual instantiation + abstraction + nlsat (sound: only weakens the hypotheses)
+        try:
+            if self.solve_by_instantiation(ob, min(timeout_ms, 8000)):
+                return 'unsat', None
+        except (z3.Z3Exception, ValueError, RecursionError):
+            pass
+        # 3rd attempt: default configuration (MBQI on): can also produce counter-models
         s = z3.Solver()
         s.set('timeout', timeout_ms)
         s.add(ax)
@@ -510,25 +518,110 @@ class Engine(NumericMixin, EvalMixin, ExecMixin, CallMixin, BuiltinMixin):
             if not self.model_is_genuine(m, ob):
                 return 'unknown', None
             return 'sat', self.concretize(m, ob)
-        # 3rd attempt (monotone weakening): keep only the quantifier-free pure-arithmetic hypotheses and decide
-        # with nlsat; an unsat answer from a subset of the hypotheses is still a proof
-        g2 = z3.simplify(ob.goal)
-        if is_pure_arith(g2):
-            s = z3.Tactic('qfnra-nlsat').solver() if not has_int_vars(g2) else z3.SolverFor('QF_NIA')
-            s.set('timeout', timeout_ms)
-            keep = []
-            for p_ in ob.pc:
-                p2 = z3.simplify(p_)
-                if is_pure_arith(p2):
-                    keep.append(p2)
-            s.add(keep)
-            s.add(z3.Not(g2))
-            try:
-                if s.check() == z3.unsat:
-                    return 'unsat', None
-            except z3.Z3Exception:
-                pass
         return 'unknown', None
+
+    def solve_by_instantiation(self, ob, timeout_ms):
+        """skolemise the goal's universal quantifiers, instantiate the universally quantified hypotheses at the
+        index terms occurring in the goal, replace every non-arithmetic subterm by a fresh constant (congruence
+        is lost: weaker), keep what is pure arithmetic and decide with nlsat / QF_NIA.  unsat => the VC is valid."""
+        goal = ob.goal
+        sk = []
+        while z3.is_quantifier(goal) and goal.is_forall():
+            vs = [z3.FreshConst(goal.var_sort(i), 'sk') for i in range(goal.num_vars())]
+            goal = z3.substitute_vars(goal.body(), *reversed(vs))
+            sk += vs
+        goal = z3.simplify(expand_select_store(z3.simplify(goal)))
+        if z3.is_quantifier(goal):
+            return False
+        # candidate instantiation terms: skolems + integer index terms of selects in the goal
+        terms = {}
+        for v in sk:
+            if v.sort().kind() == z3.Z3_INT_SORT:
+                terms[v.get_id()] = v
+
+        def collect(e, seen):
+            if e.get_id() in seen or z3.is_quantifier(e) or z3.is_var(e):
+                return
+            seen.add(e.get_id())
+            if z3.is_app(e):
+                if e.decl().kind() == z3.Z3_OP_SELECT and e.arg(1).sort().kind() == z3.Z3_INT_SORT:
+                    terms[e.arg(1).get_id()] = e.arg(1)
+                for c in e.children():
+                    collect(c, seen)
+        collect(goal, set())
+        extra = []
+        for t in list(terms.values()):
+            for d in (1, -1):
+                extra.append(z3.simplify(t + d))
+        for t in extra:
+            terms[t.get_id()] = t
+        tl = list(terms.values())[:12]
+        hyps = []
+        for p in ob.pc:
+            if z3.is_quantifier(p):
+                if p.is_forall() and p.num_vars() == 1 and p.var_sort(0).kind() == z3.Z3_INT_SORT and not any(z3.is_quantifier(c) for c in [p.body()] if False):
+                    for t in tl:
+                        inst = z3.simplify(expand_select_store(z3.simplify(z3.substitute_vars(p.body(), t))))
+                        if not contains_quantifier(inst):
+                            hyps.append(inst)
+                continue
+            hyps.append(z3.simplify(expand_select_store(z3.simplify(p))))
+        # abstraction of non-arithmetic subterms
+        table = {}
+
+        def abstract(e):
+            if z3.is_quantifier(e) or z3.is_var(e):
+                raise ValueError
+            k = e.sort().kind()
+            if z3.is_app(e):
+                dk = e.decl().kind()
+                arith_ok = dk in ARITH_OPS or (dk == z3.Z3_OP_UNINTERPRETED and e.num_args() == 0 and k in (z3.Z3_BOOL_SORT, z3.Z3_INT_SORT, z3.Z3_REAL_SORT))
+                if z3.is_int_value(e) or z3.is_rational_value(e) or z3.is_true(e) or z3.is_false(e):
+                    return e
+                if arith_ok and all(c.sort().kind() in (z3.Z3_BOOL_SORT, z3.Z3_INT_SORT, z3.Z3_REAL_SORT) for c in e.children()):
+                    ch = [abstract(c) for c in e.children()]
+                    return e.decl()(*ch) if ch else e
+                if dk == z3.Z3_OP_EQ or dk == z3.Z3_OP_DISTINCT:
+                    if all(c.sort().kind() in (z3.Z3_BOOL_SORT, z3.Z3_INT_SORT, z3.Z3_REAL_SORT) for c in e.children()):
+                        ch = [abstract(c) for c in e.children()]
+                        return e.decl()(*ch)
+            if k in (z3.Z3_BOOL_SORT, z3.Z3_INT_SORT, z3.Z3_REAL_SORT):
+                key = e.get_id()
+                if key not in table:
+                    table[key] = z3.FreshConst(e.sort(), 'abs')
+                return table[key]
+            raise ValueError
+        try:
+            g_abs = abstract(goal)
+        except ValueError:
+            return False
+        keep = []
+        for h in hyps:
+            try:
+                keep.append(abstract(h))
+            except ValueError:
+                continue
+        use_int = any(v.sort().kind() == z3.Z3_INT_SORT for v in table.values()) or has_int_vars(g_abs)
+        if os.environ.get('PYVC_DEBUG_INST'):
+            print('INST goal:', g_abs)
+            for h in keep:
+                print('INST hyp :', str(h)[:400])
+        mixed = use_int and (has_real_vars(g_abs) or any(has_real_vars(h) for h in keep))
+        if mixed:
+            # integers only steer case splits here: treat them as reals (sound for unsat: every integer model is a real model)
+            sub = []
+            for v in set(list(table.values())):
+                pass
+            g_abs, keep = int_to_real(g_abs), [int_to_real(h) for h in keep]
+            s = z3.Tactic('qfnra-nlsat').solver()
+        elif use_int:
+            s = z3.SolverFor('QF_NIA')
+        else:
+            s = z3.Tactic('qfnra-nlsat').solver()
+        s.set('timeout', timeout_ms)
+        s.add(keep)
+        s.add(z3.Not(g_abs))
+        return s.check() == z3.unsat
 
     def model_is_genuine(self, m, ob):
         """guard against spurious `sat` (incomplete theories combinations, lambdas): every ground path
@@ -758,3 +851,123 @@ def has_int_vars(e):
             return True
         stack.extend(x.children())
     return False
+
+
+ARITH_OPS = {z3.Z3_OP_ADD, z3.Z3_OP_SUB, z3.Z3_OP_MUL, z3.Z3_OP_DIV, z3.Z3_OP_IDIV, z3.Z3_OP_MOD, z3.Z3_OP_REM, z3.Z3_OP_UMINUS,
+             z3.Z3_OP_LE, z3.Z3_OP_LT, z3.Z3_OP_GE, z3.Z3_OP_GT, z3.Z3_OP_AND, z3.Z3_OP_OR, z3.Z3_OP_NOT, z3.Z3_OP_IMPLIES,
+             z3.Z3_OP_ITE, z3.Z3_OP_TO_REAL, z3.Z3_OP_TO_INT, z3.Z3_OP_IFF, z3.Z3_OP_XOR, z3.Z3_OP_POWER}
+
+
+def contains_quantifier(e):
+    stack, seen = [e], set()
+    while stack:
+        x = stack.pop()
+        if x.get_id() in seen:
+            continue
+        seen.add(x.get_id())
+        if z3.is_quantifier(x):
+            return True
+        if z3.is_app(x):
+            stack.extend(x.children())
+    return False
+
+
+def has_real_vars(e):
+    stack, seen = [e], set()
+    while stack:
+        x = stack.pop()
+        if x.get_id() in seen:
+            continue
+        seen.add(x.get_id())
+        if z3.is_const(x) and x.decl().kind() == z3.Z3_OP_UNINTERPRETED and x.sort().kind() == z3.Z3_REAL_SORT:
+            return True
+        stack.extend(x.children())
+    return False
+
+
+def expand_select_store(e, _cache=None):
+    """select(store(a, k, v), j)  ->  ite(j == k, v, select(a, j))   (read-over-write, applied bottom-up)"""
+    if _cache is None:
+        _cache = {}
+    key = e.get_id()
+    if key in _cache:
+        return _cache[key]
+    if z3.is_quantifier(e) or z3.is_var(e) or not z3.is_app(e) or e.num_args() == 0:
+        _cache[key] = e
+        return e
+    ch = [expand_select_store(c, _cache) for c in e.children()]
+    if e.decl().kind() == z3.Z3_OP_SELECT and len(ch) == 2:
+        a, j = ch
+        r = _sel(a, j)
+    elif e.decl().kind() in (z3.Z3_OP_DT_ACCESSOR, z3.Z3_OP_DT_IS) and len(ch) == 1 and z3.is_app(ch[0]) and ch[0].decl().kind() == z3.Z3_OP_ITE:
+        c, a, b = ch[0].children()
+        r = z3.If(c, expand_select_store(e.decl()(a), _cache), expand_select_store(e.decl()(b), _cache))
+    else:
+        try:
+            r = e.decl()(*ch)
+        except Exception:
+            r = e
+    _cache[key] = r
+    return r
+
+
+def _sel(a, j):
+    if z3.is_app(a) and a.decl().kind() == z3.Z3_OP_STORE and a.num_args() == 3:
+        base, k, v = a.arg(0), a.arg(1), a.arg(2)
+        return z3.If(j == k, v, _sel(base, j))
+    return z3.Select(a, j)
+
+
+def int_to_real(e, _cache=None):
+    """relax integer-sorted constants to real-sorted ones (same names): a formula unsatisfiable over the reals
+    is unsatisfiable over the integers"""
+    if _cache is None:
+        _cache = {}
+    k = e.get_id()
+    if k in _cache:
+        return _cache[k]
+    if z3.is_int_value(e):
+        r = z3.RealVal(e.as_long())
+    elif z3.is_const(e) and e.decl().kind() == z3.Z3_OP_UNINTERPRETED and e.sort().kind() == z3.Z3_INT_SORT:
+        r = z3.Real('r!' + e.decl().name())
+    elif z3.is_app(e) and e.num_args() > 0:
+        ch = [int_to_real(c, _cache) for c in e.children()]
+        dk = e.decl().kind()
+        if dk == z3.Z3_OP_TO_REAL:
+            r = ch[0]
+        elif dk in (z3.Z3_OP_IDIV, z3.Z3_OP_MOD, z3.Z3_OP_REM, z3.Z3_OP_TO_INT):
+            raise z3.Z3Exception('integer-only operator')
+        elif dk == z3.Z3_OP_ADD:
+            r = ch[0]
+            for c in ch[1:]:
+                r = r + c
+        elif dk == z3.Z3_OP_MUL:
+            r = ch[0]
+            for c in ch[1:]:
+                r = r * c
+        elif dk == z3.Z3_OP_SUB:
+            r = ch[0]
+            for c in ch[1:]:
+                r = r - c
+        elif dk == z3.Z3_OP_UMINUS:
+            r = -ch[0]
+        elif dk == z3.Z3_OP_LE:
+            r = ch[0] <= ch[1]
+        elif dk == z3.Z3_OP_LT:
+            r = ch[0] < ch[1]
+        elif dk == z3.Z3_OP_GE:
+            r = ch[0] >= ch[1]
+        elif dk == z3.Z3_OP_GT:
+            r = ch[0] > ch[1]
+        elif dk == z3.Z3_OP_EQ:
+            r = ch[0] == ch[1]
+        elif dk == z3.Z3_OP_DISTINCT:
+            r = z3.Distinct(*ch)
+        elif dk == z3.Z3_OP_ITE:
+            r = z3.If(ch[0], ch[1], ch[2])
+        else:
+            r = e.decl()(*ch)
+    else:
+        r = e
+    _cache[k] = r
+    return r
